@@ -238,12 +238,12 @@ def unit_sweep(ctx, db, r):
                     ctx.violation("repr-raised-or-does-not-evaluate:%s" % type(e).__name__, dict(case, category=c2, error=str(e)[:160]), replay=case)
 
 
-def category_sweep(ctx, db):
+def category_sweep(ctx, db, only=None, tag=""):
     from barril.basic.fraction import FractionValue
     from barril.units import Array, FixedArray, FractionScalar, Scalar
 
     for idx, c in enumerate(list(db.IterCategories())):
-        if idx % ctx.nshards != ctx.shard:
+        if (idx % ctx.nshards != ctx.shard) if only is None else (c not in only):
             continue
         ci = db.GetCategoryInfo(c)
         du, dv = db.GetDefaultUnit(c), db.GetDefaultValue(c)
@@ -266,7 +266,7 @@ def category_sweep(ctx, db):
                 continue
             why = same(a, b)
             if why:
-                ctx.violation("category-default:%s-differs-from-default-value-and-unit" % name, dict(case, bare=repr(a)[:120], explicit=repr(b)[:120], why=why), replay=case)
+                ctx.violation("category-default:%s-differs-from-default-value-and-unit%s" % (name, tag), dict(case, bare=repr(a)[:120], explicit=repr(b)[:120], why=why), replay=case)
             # a caller that fills in the container of the object it was given (a point built from its category, then its
             # coordinates written into it) has changed that object - not what the next bare-category object is built with
             if name in ("Array", "FixedArray") and idx % 5 == 0:
@@ -283,6 +283,30 @@ def category_sweep(ctx, db):
                         ctx.violation("category-default:%s-built-after-a-caller-filled-in-an-earlier-one-differs" % name, dict(case, bare=repr(a2)[:120], explicit=repr(b2)[:120], why=why), replay=case)
                 except Exception as e:
                     ctx.violation("category-default:%s-raised-after-a-caller-filled-in-an-earlier-one:%s" % (name, type(e).__name__), dict(case, error=str(e)[:160]), replay=case)
+
+
+def category_sweep_under_a_unit_system(ctx, db):
+    """The same bare-category forms while the application has a *current unit system* that shows these categories in another
+    unit than their default one: what an object built from its category alone holds is the category's default value in the
+    category's default unit - a unit system re-expresses amounts on request, it does not change what the forms build."""
+    from barril.units.unit_system_manager import UnitSystemManager
+
+    cats = list(db.IterCategories())
+    mapping = {}
+    for c in cats[ctx.shard :: max(1, ctx.nshards)]:
+        du = db.GetDefaultUnit(c)
+        others = [u for u in db.GetValidUnits(c) if u != du]
+        if others and db.GetCategoryQuantityType(c) != "Unknown":
+            mapping[c] = others[0]
+    m = UnitSystemManager()
+    UnitSystemManager.PushSingleton(m)
+    try:
+        m.AddUnitSystem("c19", "C19", dict(mapping))
+        m.SetCurrent(m.GetUnitSystemById("c19"))
+        ctx.count("categories shown in another unit by the current unit system", len(mapping))
+        category_sweep(ctx, db, only=set(mapping), tag=" (a unit system is current)")
+    finally:
+        UnitSystemManager.PopSingleton()
 
 
 def registered_later(ctx):
@@ -452,6 +476,7 @@ def run(ctx):
     with table.pushed(db):
         unit_sweep(ctx, db, ctx.rng("c19"))
         category_sweep(ctx, db)
+        category_sweep_under_a_unit_system(ctx, db)
         if ctx.shard == 0:
             ctx.sample({"unit": "cP", "default category": db.GetDefaultCategory("cP"), "forms": [n for n, _ in scalar_forms("cP", "x", 1.0, True)]})
     if ctx.shard == 0:
